@@ -43,6 +43,8 @@ fn op_strat(which: Which) -> impl Strategy<Value = Op> {
         2 => (0usize..3).prop_map(Op::Drop),
         hl => (0usize..10).prop_map(Op::HighLevel),
         2 => (0usize..4, 0usize..6).prop_map(|(s, l)| Op::Deserialize(s, l)),
+        1 => (0usize..3).prop_map(Op::DropUnwinding),
+        2 => (0usize..7).prop_map(Op::Wrapper),
     ]
 }
 
@@ -176,6 +178,9 @@ pub fn worker(args: &[String]) -> i32 {
         }
     }
     if which == Which::C19 {
+        for sel in 0..7usize {
+            det.push(History { array_len: None, ops: vec![Op::New { ctor: Ctor::FromSliceLocked, len_idx: 3 }, Op::Wrapper(sel), Op::Wrapper(sel + 2), Op::ReadOnly(0), Op::Drop(0)], fill: seed ^ (sel as u64) << 3 });
+        }
         for sel in 0..4usize {
             for li in 0..6usize {
                 det.push(History { array_len: None, ops: vec![Op::New { ctor: Ctor::FromSliceLocked, len_idx: 3 }, Op::Deserialize(sel, li), Op::Deserialize(sel + 1, li), Op::Drop(0)], fill: seed ^ (sel * 7 + li) as u64 });
@@ -183,6 +188,12 @@ pub fn worker(args: &[String]) -> i32 {
         }
     }
     if which == Which::C15 {
+        // spare capacity left by a shrinking resize, then released while a panic unwinds
+        for (a, b) in [(7usize, 2usize), (9, 4), (12, 1), (8, 6)] {
+            for ctor in [Ctor::Plain, Ctor::FromSliceLocked] {
+                det.push(History { array_len: None, ops: vec![Op::New { ctor, len_idx: a }, Op::Resize(0, a), Op::Resize(0, b), Op::DropUnwinding(0)], fill: seed ^ (a * 13 + b) as u64 });
+            }
+        }
         for k in 0..10 {
             det.push(History { array_len: None, ops: vec![Op::HighLevel(k), Op::HighLevel(k + 3)], fill: seed ^ k as u64 });
         }
